@@ -1387,6 +1387,10 @@ func (e *Entry) Find(name string) *Entry {
 					}
 				}
 				e = e.RPC.Output
+			default:
+				// An rpc or action has no children other than its
+				// input and output.
+				return nil
 			}
 		default:
 			_, part = getPrefix(part)
